@@ -10,7 +10,7 @@ import (
 
 func init() {
 	Register("C15", "Decides three structural necessary conditions of 'what follows never moves the boundary' for the schema scanner's Len(): (boundary) once the root value is complete (state stateEndTop, empty lexeme stack, no annotation open, length mode) every byte other than a blank, `/` and `#` emits the EndTop lexeme and nothing else; (stop) Length() stops reading at the EndTop lexeme; (arith) the candidate length is End()+1 after a lexeme and End() or End()-1 at EndTop (the lexeme lies on the first trailing byte; the property only speaks of trailing text on a new line, so at least one blank precedes it), after which exactly SP, TAB, LF, CR are dropped from the end. (pairing) every dedicated callee of the return-to-step stack (escape, comment states) leaves by a pop, so the scanner is back in stateEndTop when the root value and its annotation end. Does NOT decide prefix acceptance, idempotence of Len on the prefix, equality of ASTs, nor the values of the lexeme positions.",
-		c15boundary, c15stop, c15arith, pairingRule("C15.pairing", []string{"notations/jschema/scanner"}))
+		c15boundary, c15stop, c15arith, c15lineend, pairingRule("C15.pairing", []string{"notations/jschema/scanner"}))
 }
 
 func c15boundary(c *core.Ctx) {
@@ -107,4 +107,37 @@ func c15stop(c *core.Ctx) {
 func c15arith(c *core.Ctx) {
 	lenArith(c, "C15.arith", "(*notations/jschema/scanner.Scanner).Length", func(k int64) bool { return k == 0 || k == -1 }, "candidate length = End() or End()-1 (a blank precedes the trailer)",
 		"structure of (*notations/jschema/scanner.Scanner).Length: candidate = End()+1 after a lexeme; at the EndTop lexeme (which lies on the first byte of the follow-up text, preceded by at least the line break) End() or End()-1; then exactly SP, TAB, LF, CR are dropped from the end (predicate evaluated for all 256 bytes)")
+}
+
+// c15lineend: a reference shortcut ends at the end of its line.
+func c15lineend(c *core.Ctx) {
+	const R = "C15.lineend"
+	c.Rule(R, "in the states of a type reference / `@a | @b` shortcut that accept the separator `|` (after a type name, between a name and the pipe) a line break is not a blank: the row of LF differs from the row of SPACE (LF ends the value through stateEndValue, SPACE waits for a pipe). If LF were skipped like SPACE the text on the line after a root `@cat` (`| @dog`, a one-character line) would be taken for a continuation of the schema and move the boundary found by Len()")
+	c.Floor(R, 2)
+	m := buildScanModel(c, "notations/jschema/scanner")
+	n := 0
+	for _, name := range m.names {
+		rows := m.rows[name]
+		pipe := false
+		for _, p := range rows['|'].paths {
+			if p.kind == "return" && p.next != "" && p.next != name && len(p.finds) == 0 {
+				pipe = true
+			}
+		}
+		same := 0
+		for b := 0x21; b < 0x7f; b++ {
+			if rows[b].key == rows['|'].key {
+				same++
+			}
+		}
+		if !pipe || same > 3 {
+			continue
+		}
+		n++
+		pos := c.P.Pos(m.states[name].Pos())
+		c.Check(rows['\n'].key != rows[' '].key, R, "state:"+name, pos, "state "+name+": LF is handled differently from SPACE", "a line break is skipped like a blank inside a reference shortcut: the value continues on the next line")
+	}
+	if n == 0 {
+		c.Bad(R, "states", "-", "pipe-accepting states", "undecided: no state accepts `|` as a separator")
+	}
 }
